@@ -448,10 +448,10 @@ def layer_messages(ctx, n):
 
 def run(ctx):
     monitors.install(ctx, tokalg=False)
-    layer_trees(ctx, 200 if ctx.quick else 4000)
-    layer_macros(ctx, 20 if ctx.quick else 300)
-    layer_implicit(ctx, 20 if ctx.quick else 300)
-    layer_messages(ctx, 20 if ctx.quick else 300)
+    layer_trees(ctx, 700 if ctx.quick else 4000)
+    layer_macros(ctx, 60 if ctx.quick else 300)
+    layer_implicit(ctx, 60 if ctx.quick else 300)
+    layer_messages(ctx, 60 if ctx.quick else 300)
 
 
 def replay(data):
